@@ -107,6 +107,16 @@ UnpairedFailed(e) ==
     IF e.out.tag = "panic" THEN {"C04.no_panic"}
     ELSE IF sa.n < 2 \/ sb.n < 2 THEN {c \in {"C04.domain"} : ~(e.out.tag = "err" /\ e.out.variant = "TooFewSamples")}
     ELSE IF ~OkIv(e) THEN {"C04.domain"}
+    ELSE IF "designed" \in DOMAIN e
+    THEN \* a designed pair: e.designed indexes the table; exchanged events see the samples swapped
+         LET pa == IF e.role = "exchange" THEN sb ELSE sa
+             pb == IF e.role = "exchange" THEN sa ELSE sb IN
+         {c \in {"C04.shape"} : ~ShapeOK(e)}
+         \cup {c \in {"C04.designed_dof"} : ~DesignedNuOK(pa, pb, e.designed)}
+         \cup (IF ~ShapeOK(e) THEN {} ELSE
+               {c \in {"C04.real_dof_critical_value", "C06.real_dof_critical_value"} :
+                  \/ (HasLoB(e) /\ ~DesignedBoundOK(sa, sb, FDy(e.out.iv.lo), "lo", e.conf.kind, e.li, PrecE(e), e.designed))
+                  \/ (HasHiB(e) /\ ~DesignedBoundOK(sa, sb, FDy(e.out.iv.hi), "hi", e.conf.kind, e.li, PrecE(e), e.designed))})
     ELSE {c \in {"C04.shape"} : ~ShapeOK(e)}
          \cup (IF ~ShapeOK(e) \/ (DySign(sa.v) = 0 /\ DySign(sb.v) = 0) THEN {} ELSE
                LET nr == UnpairedNuRange(sa, sb) IN
@@ -178,7 +188,8 @@ Clauses1(e) ==
                                          \cup (IF "diffci" \in DOMAIN e THEN {"C04.paired_is_arith_of_differences"} ELSE {})
                                     ELSE {"C04.domain"})
       [] e.fl = "unpaired" -> {"C04.no_panic", "C04.unpaired." \o e.style}
-                              \cup (IF OkIv(e) THEN {"C04.shape", "C04.unpaired_bound"}
+                              \cup (IF OkIv(e) /\ "designed" \in DOMAIN e THEN {"C04.shape", "C04.designed_dof", "C04.real_dof_critical_value", "C06.real_dof_critical_value"}
+                                    ELSE IF OkIv(e) THEN {"C04.shape", "C04.unpaired_bound"}
                                        \cup (LET sa == Moments(e.data)  sb == Moments(e.datab) IN
                                              IF DySign(sa.v) = 0 /\ DySign(sb.v) = 0 THEN {"C04.unpaired_both_constant"}
                                              ELSE LET nr == UnpairedNuRange(sa, sb) IN
